@@ -99,6 +99,6 @@ MANIFEST = dict(
     text="SHA-256/HMAC, CRC32C, AES block and AES-CTR are executed in one process by every configuration this host can run; any differing output bit is a "
          "violation attributed to the path that produced it. Generators aim at the per-path thresholds (CRC32C 8 bytes, AES-CTR 16 bytes), buffer "
          "alignments 0..15, padding boundaries, counter carries and partitions that switch between accelerated and portable code inside one stream. "
-         "Evidence lists which paths actually executed.",
+         "Evidence lists which paths actually executed. A giant sub feeds ONE call of 2^29+k / 2^32+k bytes (SHA-256) and 2^32+k bytes (CRC32C) to one variant per path and compares with the portable build.",
     note="Trusted: the all-portable build as reference, clang 14 sanitizers, rapidcheck. Checks rebuild every configuration from /repo's current tree.",
 )
